@@ -778,4 +778,113 @@ U_TRF = Unit(P + '/transformation round trips', ['Geo_Container.as_cmdline', 'ma
              canaries=[Canary('transformation-tag-never-written', 'Geo_Container.as_cmdline', _TransformNoTag,
                               [P + '/--geo-rotate/translate/scale round trip/'])])
 
-UNITS = [U_WIRE, U_ARC, U_HELIX, U_TAPER, U_LOAD, U_EXC, U_MEDIUM, U_RLC, U_ATTW, U_DIST, U_LAP, U_TRF]
+
+
+# ---------------------------------------------------------------- Mininec.as_cmdline: every part written, once, in order
+def t_model_writer(eng):
+    """Mininec.as_cmdline on a model with 2 sources, 0 or 2 media and five loads (a lumped one, two all-wires loads of one
+    distributed class -- one per object, as the reader creates them --, a tagged load of the same class, an all-wires
+    load of the other class); the parts' own writers are replaced by markers (their contracts are the units above).
+    Contract: frequency first; geometry, every source, every medium once and in order; every load once, except that
+    the per-object copies of an all-wires distributed load are written once per class (the reader re-creates one per
+    object from the single line); the angle lines read back through main's --theta/--phi readers."""
+    name = P + '/Mininec.as_cmdline'
+    m = SObj('Mininec', label='m')
+    fq = fresh_real('f')
+    m.fields['_f'] = fq
+    m.fields['f'] = fq
+    geo = SObj('Geo_Container', label='geo')
+    m.fields['geo'] = geo
+    mark = lambda t: AStr([('lit', t)])
+    eng.summaries['Geo_Container.as_cmdline'] = lambda e, a, k: mark('<GEO>')
+    srcs = [SObj('Excitation', label='s%d' % k) for k in range(2)]
+    m.fields['sources'] = SList([('conc', list(srcs))])
+    eng.summaries['Excitation.as_cmdline'] = lambda e, a, k: mark('<SRC%d>' % [id(x) for x in srcs].index(id(a[0])))
+    with_media = eng.choose(2) == 1
+    meds = [SObj('Medium', label='med%d' % k) for k in range(2)] if with_media else []
+    m.fields['media'] = SList([('conc', list(meds))]) if with_media else None
+    eng.summaries['Medium.as_cmdline'] = lambda e, a, k: mark('<MED%d>' % [id(x) for x in meds].index(id(a[0])))
+    specs = [('Impedance_Load', None), ('Skin_Effect_Load', True), ('Skin_Effect_Load', True), ('Skin_Effect_Load', False),
+             ('Insulation_Load', True)]
+    loads = []
+    for k, (cls, aw) in enumerate(specs):
+        o = SObj(cls, label='ld%d' % k)
+        if aw is not None:
+            o.fields['all_wires'] = aw
+        loads.append(o)
+    m.fields['loads'] = SList([('conc', list(loads))])
+    for cls in ('Impedance_Load', 'Skin_Effect_Load', 'Insulation_Load'):
+        eng.summaries[cls + '.as_cmdline'] = lambda e, a, k: mark('<LOAD%d>' % [id(x) for x in loads].index(id(a[0])))
+    with_angles = eng.choose(2) == 1
+    kw = {}
+    zen = azi = None
+    if with_angles:
+        zen, azi = SObj('Angle', label='zen'), SObj('Angle', label='azi')
+        for o, nm in ((zen, 't'), (azi, 'p')):
+            o.fields.update({'initial': fresh_real(nm + '0'), 'inc': fresh_real(nm + 'inc'), 'number': fresh_int(nm + 'n')})
+        kw = {'azi': azi, 'zen': zen}
+    text = eng.call_qual('Mininec.as_cmdline', [m], kw)
+    ls = lines_of(text)
+    eng.cover('model-writer-%d-%d' % (with_media, with_angles))
+    lits = [l.lit() if l.is_lit() else None for l in ls]
+    first = ls[0] if ls else None
+    okf = first is not None and len(first.toks) == 2 and first.toks[0] == ('lit', '-f ') and first.toks[1][0] == 'conv'
+    eng.oblige(name + '/frequency-first', okf and bterm(eng.values_equal(first.toks[1][2], fq)))
+    marks = [x for x in lits if x and x.startswith('<')]
+    want = ['<GEO>', '<SRC0>', '<SRC1>'] + ['<MED%d>' % k for k in range(len(meds))] + ['<LOAD0>', '<LOAD1>', '<LOAD3>', '<LOAD4>']
+    eng.oblige(name + '/geometry-sources-media-loads-each-once-in-order-(all-wires-copies-once-per-class)', marks == want,
+               detail='%s' % marks)
+    rest = [l for l, t in zip(ls[1:], lits[1:]) if not (t and t.startswith('<'))]
+    if with_angles:
+        names = [option_value(l)[0] for l in rest]
+        eng.oblige(name + '/theta-and-phi-lines-written', sorted(names) == ['--phi', '--theta'], detail=str(names))
+        for opt, ang in (('--theta', zen), ('--phi', azi)):
+            if opt not in names:
+                continue
+            value = option_value(rest[names.index(opt)])[1]
+            f = eng.get_fnode('main')
+            o = opt[2:]
+            idx = [k for k, st in enumerate(f.body) if isinstance(st, ast.Assign) and ast.unparse(st.targets[0]) == 'p'
+                   and ('args.%s.split' % o) in ast.unparse(st.value)]
+            stmts = []
+            for st in f.body[idx[0]:]:
+                stmts.append(st)
+                if isinstance(st, ast.Try):
+                    break
+            record = []
+            eng.summaries['Angle.__init__'] = MS.raising_summary(record, 'Angle', excs=())
+            env = {'args': MS.args_ns(eng, **{o: value}), 'f_err': AStr([('lit', '<stderr>')])}
+            out = MS.run_stmts(eng, stmts, env)
+            okc = out.kind == 'normal' and len(record) == 1 and len(record[0][1]) == 3
+            eng.oblige(name + '/' + opt + '-line-reads-back', okc and bterm(b_and(
+                eng.values_equal(record[0][1][0], ang.fields['initial']), eng.values_equal(record[0][1][1], ang.fields['inc']),
+                eng.values_equal(record[0][1][2], ang.fields['number']))), detail='%s %s' % (out.kind, out.exc))
+    else:
+        eng.oblige(name + '/nothing-else-written', not rest, detail=str(len(rest)))
+
+
+class _SkipTagged(ast.NodeTransformer):
+    """skip every further load of a class already written, not only the all-wires copies"""
+
+    def visit_If(self, node):
+        if 'l.all_wires' in ast.unparse(node.test):
+            node.test = ast.parse('isinstance (l, Distributed_Load) and key in loads').body[0].value
+        return node
+
+
+class _ThetaPhiSwap(ast.NodeTransformer):
+    def visit_Constant(self, node):
+        if node.value == '--theta=%g,%g,%d':
+            return ast.Constant('--phi=%g,%g,%d')
+        if node.value == '--phi=%g,%g,%d':
+            return ast.Constant('--theta=%g,%g,%d')
+        return node
+
+
+U_MODEL = Unit(P + '/Mininec.as_cmdline', ['Mininec.as_cmdline', 'main'], t_model_writer, SCH,
+               slices={'main': 'the --theta / --phi reader statements'},
+               notes='bounded(shape): 2 sources, 0 or 2 media, 5 loads',
+               canaries=[Canary('tagged-distributed-load-dropped', 'Mininec.as_cmdline', _SkipTagged, [P + '/Mininec.as_cmdline/geometry']),
+                         Canary('theta-and-phi-lines-swapped', 'Mininec.as_cmdline', _ThetaPhiSwap, [P + '/Mininec.as_cmdline/--'])])
+
+UNITS = [U_WIRE, U_ARC, U_HELIX, U_TAPER, U_LOAD, U_EXC, U_MEDIUM, U_RLC, U_ATTW, U_DIST, U_LAP, U_TRF, U_MODEL]
